@@ -258,6 +258,38 @@ pub fn run(o: &Opts) {
     }
     }
   }
+  // E: `sg scan -U` on a project whose file has several unused suppression comments (their deletion is a fix of the
+  //    built-in unused-suppression rule, collected from a hash map) next to fixable findings: every launch must
+  //    write the same bytes
+  {
+    let launches = if o.thorough { 24 } else { 8 };
+    let mut written: Vec<String> = vec![];
+    for l in 0..launches {
+      let p = proj.join(format!("u{l}"));
+      std::fs::create_dir_all(p.join("rules")).unwrap();
+      std::fs::create_dir_all(p.join("src")).unwrap();
+      std::fs::write(p.join("sgconfig.yml"), "ruleDirs: [rules]\n").unwrap();
+      std::fs::write(p.join("rules/fx.yml"), "id: fx\nlanguage: TypeScript\nmessage: m\nseverity: warning\nrule:\n  pattern: foo($A)\nfix: qux($A)\n").unwrap();
+      let mut src = String::new();
+      for i in 0..6 {
+        src.push_str(&format!("// ast-grep-ignore: other{i}\nbaz({i});\n"));
+        if i % 2 == 0 {
+          src.push_str(&format!("foo({i});\n"));
+        }
+      }
+      src.push_str("// ast-grep-ignore\nfoo(9);\nbar(1); // ast-grep-ignore: nothing\n");
+      std::fs::write(p.join("src/a.ts"), &src).unwrap();
+      let r = sg(&p, &["scan", "-U"], None, 60);
+      let after = std::fs::read_to_string(p.join("src/a.ts")).unwrap_or_default();
+      written.push(format!("exit {:?}\n{}\n{after}", r.code, r.stdout.lines().filter(|l| l.contains("Applied")).collect::<Vec<_>>().join(" ")));
+    }
+    out.checked();
+    out.count("layout:unused-suppressions-under-update-all");
+    if let Some(bad) = written.iter().find(|w| **w != written[0]) {
+      out.oracle_fail("", &format!("`sg scan -U` on the same project (6 unused suppression comments and fixable findings in one file) in {launches} launches writes different results: {:?} vs {:?}", written[0], bad),
+        json!({"stream": "c13-unused-suppressions"}));
+    }
+  }
   // D: sg test --update-all, then sg test passes and a second update leaves the snapshots byte-identical
   {
     let p = proj.join("v0");
